@@ -346,7 +346,7 @@ func (p *ParamChurn) Act(e *Env) {
 		return
 	}
 	ctx := e.Ctx()
-	if e.Ch.Bool("churn.extreme", 200) {
+	if e.Ch.Bool("churn.extreme", 350) {
 		// a value at the edge of the field's range in ONE numeric field of the module's current parameters - proposed only if the
 		// module's own validation accepts it (the property quantifies over exactly those)
 		p.extreme(e, gov)
